@@ -46,6 +46,12 @@ CHECKS = {
  "C17": (True, "E3", "model_checking", E3,
   "The real lazy_io is loaded as a private module copy with threading replaced by a virtual module and pyaudio/_portaudio by a strict recording fake; every main program over {play, pause, resume, stop, close} (1 player with <=3 control operations at deviation bound 2, 2 players with <=1 at bound 1; thorough: 1 player <=4 ops bound 3, 2 players <=2 ops bound 2, 3 players) x wait x with-block/explicit close is executed under ALL schedules within the bound (pre-emptions of an enabled thread, or not yielding at a device write), executions run to completion; each execution is checked for deadlock/livelock, device bytes = prefix of iterable+padding in whole chunks (complete when wait and never stopped), device call protocol, exactly one close per stream, one terminate after them, no live thread, play refused, second close a no-op.",
   "GIL-atomic attribute access; scheduling points = virtual threading ops, backend calls, lines touching attributes assigned/mutated outside __init__ (AST scan); fake backend semantics; deviation bound."),
+ "C18": (True, "E1", "exploration", E1,
+  "WAV: files written with the stdlib wave module holding all 256 8-bit values, all 65536 16-bit values, and for 24/32 bit every sample whose bytes are drawn from {00,01,7f,80,fe,ff} (thorough adds 55,aa,10) plus +-2^k, +-2^k+-1, read back through the real WavStream (mono/stereo, keep on/off, by name and by file object, frame counts 0..5) and compared with int.from_bytes arithmetic (independent of struct); header mirrored; file closed exactly at exhaustion. chunks: both strategies x lengths 0..9 (13) x sizes {1,2,3,4,6,default,200,300} x formats b,h,i,f,d x byte orders {None,<,>,=,!} x value rotations incl. the extremes of each width, checked by unpacking the concatenated output and by comparing the two strategies byte for byte.",
+  "Value alphabets for 24/32 bit; type-appropriate values and pad values."),
+ "C19": (True, "E1", "exploration", E1 + "; exact rational parameters, symbolic samples for the resampler",
+  "Every generator over its parameter alphabet in exact Q arithmetic: line (8 durations x 5x5 values x finish), ones/zeros/impulse/fades (12 durations incl. None/inf), adsr/attack (constant and stream sustain), noise with an owned random source, modulo_counter over 4 starts x 3 moduli x 9 steps (negative, zero, multiples of the modulo, both internal paths) x all 8 numbers-vs-streams combinations x constant/varying streams and the end-with-shortest-stream rule, TableLookup oscillator/getitem/operators/harmonize/normalize, sinusoid (tolerance for sin only), karplus_strong vs the linearised comb, resample on symbolic inputs of length 0..10 (14) x 7 ratios x orders 0..3 x constant/stream ratios against window-placement + Lagrange basis written from the statement.",
+  "Parameter alphabets; modulo streams constant; closed forms excluded where they divide by zero."),
 }
 
 NOT_YET = "check not built yet in this session; see DESIGN.md section 4 for the planned model-checking harness"
